@@ -361,6 +361,9 @@ func DrawMuxSpecOpt(t *sim.Tape, av bool) (*MuxSpec, error) {
 		if t.Chance(60) {
 			// very long samples in a fine timescale: stts runs that last more than 2^32 ticks (legal; needs version-1 headers)
 			tr.Timescale = 10000000
+			if t.Bool() {
+				s.MovieTS = 10000000 // the movie header then needs 64-bit durations too (version 1)
+			}
 			baseDur = uint32(150000000 + 1000000*t.Draw(50))
 		}
 		for k := 0; k < n; k++ {
